@@ -48,6 +48,7 @@ func run(r *vkit.Report) {
 	r.Assume("after stream.Merge first reports an error no further Next is issued: stickiness of the error is not judged")
 	r.Assume("the caller's slice of inputs / destinations belongs to the caller: the functions may read it while they run but must leave the array (the passed window, its spare capacity, its surroundings) as it was")
 	r.Assume("'the goroutines finish after Close' for an input that ignores its context and never ends is decided as bounded progress: Close blocked for >= 15 s (normal: microseconds) while a goroutine started by stream.Merge is running in two dumps 2 s apart, >= 1.5 s of CPU burnt and >= 1000 further values pulled from the input in between; anything less is inconclusive")
+	r.Assume("consumers of chans.Replicate's destinations may advance in rounds (item k from every destination before item k+1 from any): Replicate is documented to send every value to every destination, and sending item k everywhere before taking item k+1 is the only order that serves such readers")
 	r.Assume("a channel may have other receivers besides chans.Merge (Go channels allow it and the documentation does not forbid it): Merge must then forward only what it really received; nil channels are not documented and not tried")
 	r.Assume("which of several inputs' OWN errors is 'first' is not judged; but an error an input returned only because the context Merge gave it (or a child of it) was done is not an own error: if an input had failed on its own and the consumer's context is live, one of the own errors must be reported")
 	r.Assume("a Next given a done context by the consumer may return a value, End, an input's error or that context's error: all are accepted, and after the context's error the consumer carries on; what is judged is that nothing is lost or duplicated and the stream still ends as its inputs do")
@@ -72,7 +73,8 @@ func run(r *vkit.Report) {
 	nDeaf := r.Scale(480, 1920)
 	nMergeWide := r.Scale(60, 240)
 	nRepWide := r.Scale(240, 960)
-	nIface := r.Scale(1920, 7680)
+	nIface := r.Scale(2880, 11520)
+	nDisc := r.Scale(800, 3200)
 	nShared := r.Scale(4200, 16800)
 
 	r.Cases("regress", nReg, workers, regressCase)
@@ -85,6 +87,7 @@ func run(r *vkit.Report) {
 	r.Cases("smerge-endless", nEndless, workers, smergeEndlessCase)
 	r.Cases("smerge-gate", nGate, workers, smergeGateCase)
 	r.Cases("chans-iface", nIface, workers, ifaceCase)
+	r.Cases("chans-replicate-disc", nDisc, workers, replicateDiscCase)
 	r.Cases("chans-replicate-wide", nRepWide, workers, replicateWideCase)
 	r.Cases("chans-merge-wide", nMergeWide, workers, chansMergeWideCase)
 	r.Cases("smerge-deaf", nDeaf, workers, smergeDeafCase)
@@ -129,10 +132,13 @@ func run(r *vkit.Report) {
 		r.Floor(fmt.Sprintf("chans.Merge with %d inputs", k), r.Table("chans.Merge path", mergePath(k)), int64(nMergeWide/12))
 	}
 	for _, f := range []string{"chans.Merge", "chans.Replicate", "stream.Merge"} {
-		for _, e := range []string{"error", "any"} {
-			r.Floor("element type "+e+" with nil values through "+f, r.Table("interface element type with nil values: "+f, e), int64(nIface/12))
+		for _, e := range elemTypeNames {
+			r.Floor("element type "+e+" with nil / zero / NaN values through "+f, r.Table("interface element type with nil values: "+f, e), int64(nIface/36))
 		}
 	}
+	r.Floor("chans.Replicate read round-robin by one goroutine from unbuffered destinations", r.Table("chans.Replicate consumer discipline", "one goroutine, round-robin"), int64(nDisc/4))
+	r.Floor("chans.Replicate read by lock-step consumers (barrier per item)", r.Table("chans.Replicate consumer discipline", "lock-step consumers"), int64(nDisc/4))
+	r.Floor("chans.Replicate with a prefilled buffered source and round-based readers", r.Table("chans.Replicate consumer discipline", "source had >= 2 items buffered when Replicate started"), int64(nDisc/4))
 	for k := 0; k <= 7; k++ {
 		r.Floor(fmt.Sprintf("chans.Merge of an interface element type with nil values, %d inputs", k), r.Table("interface element type with nil values: chans.Merge arity", fmt.Sprint(k)), int64(nIface/3/8/2))
 	}
